@@ -288,6 +288,26 @@ impl BlockDict {
     }
 }
 
+/// The leader of rounds 0..upto according to the REAL LeaderElector over the committee that a rig with this configuration uses, as abstract
+/// authority indices (position in sorted key order).  Written into the trace header so that the leader-related monitors judge the code by its
+/// own (deterministic, committee-only) election rather than by the model's `round mod n`.
+pub fn leader_table(cfg: &RigCfg, upto: usize) -> Vec<usize> {
+    let mut rng = StdRng::from_seed([cfg.key_seed; 32]);
+    let mut keys: Vec<(PublicKey, SecretKey)> = (0..cfg.n).map(|_| generate_keypair(&mut rng)).collect();
+    keys.sort_by(|a, b| a.0.cmp(&b.0));
+    let committee = Committee::new(
+        keys.iter().enumerate().map(|(i, (pk, _))| (*pk, cfg.stakes[i], addr(i, Port::Consensus))).collect(),
+        1,
+    );
+    let elector = consensus::verif_export::LeaderElector::new(committee);
+    (0..upto as u64)
+        .map(|r| {
+            let l = elector.get_leader(r);
+            keys.iter().position(|(k, _)| *k == l).unwrap_or(usize::MAX)
+        })
+        .collect()
+}
+
 impl Rig {
     pub fn new(cfg: RigCfg) -> Self {
         Self::with_base(cfg, 0)
